@@ -219,6 +219,41 @@ def run(ctx):
         else:
             nwork += 1
     ctx.cov["correspondence"]["work_array_stress_runs_clean_under_asan"] = nwork
+    # ---- rank-deficient relaxed leaf supernodes (legal input: the zero pivot is reported in info): k leading columns whose only
+    # entry lies in row 0, then a bidiagonal chain; the supernode has k columns and ONE row, fewer subscripts than columns.  Its
+    # request for L-subscript space must be non-negative and the run clean under ASan, with and without the hooks
+    dcases = []
+    for k_ in (2, 3, 4, 5, 6):
+        for rl in (4, 6, 8):
+            if rl < k_:
+                continue            # (more columns than relax: not one relaxed supernode; that input runs into known finding F22)
+            n_ = k_ + 5; cp, ri, vv = [0], [], []
+            for j in range(n_):
+                if j < k_:
+                    ri.append(0); vv.append(1.0 + j)
+                else:
+                    if j > k_:
+                        ri.append(j - 1); vv.append(-1.0)
+                    ri.append(j); vv.append(4.0)
+                cp.append(len(ri))
+            dcases.append(dict(id=31000 + len(dcases), driver="gstrf", m=n_, n=n_, colptr=cp, rowind=ri, vals=vv, nrhs=0, rhs=[], nprocs=1, colperm=0,
+                               ienv=[2, rl, 20, 200, 100, -50, -50, -30], thresh=1.0, trace=4, dumplu=0, timeout=60, kind="deficient-leaf"))
+    ndef = 0
+    for fl, ex in (("hooks", exe), ("asan", exe_a)):
+        dres = drv.run_grouped(ex, [dict(c, trace=4 if fl == "hooks" else 0) for c in dcases], par=max(1, vf.NCPU // 3), chunk=1)
+        for c, r in zip(dcases, dres):
+            ctx.count(("deficient", fl, c["n"], c["ienv"][1]), nontrivial=True, kind="deficient-leaf")
+            neg = [e for e in (r.get("bump_l") or []) if e[1] < 0]
+            if neg:
+                ctx.violation("C05: a relaxed supernode of %d columns sharing one row asked the L-subscript allocator for %d entries (negative): "
+                              "the next slot overlaps it / starts before lsub[0]" % (c["n"] - 5, neg[0][1]), {"case": c, "flavor": fl},
+                              key={"kind": "negative_lsub_request"})
+            elif r.get("crash") is not None or r.get("timeout"):
+                ctx.violation("C05: structurally deficient relaxed supernode (%d columns, one row), %s build: %s" % (c["n"] - 5, fl, (r.get("stderr") or "")[-300:]),
+                              {"case": c, "flavor": fl}, key={"kind": "deficient_leaf", "what": (r.get("stderr") or "")[-40:]})
+            else:
+                ndef += 1
+    ctx.cov["correspondence"]["deficient_leaf_supernode_runs_clean"] = ndef
     nab = 0
     for c in cases[:12]:
         for which, pos in (("UCOL", 6), ("LSUB", 7)):
